@@ -467,6 +467,8 @@ PROPS["C11"] = {
     "assumptions": ["gate window 120 ms: a defective implementation that is merely slow to return inside the window is a missed detection, never a false alarm", "displayrtcm3's expected body is the library's own Message.String (its correctness is C05/C08/C15's business)", "Go toolchain, rapid v1.3.0"],
     "min_evals": {"quick": 150, "thorough": 8000},
     "legs": [
+        Leg("program", "c11", "^TestProgram$", engine="process", app=["displayrtcm3"], checks=(25, 800), shards=(4, 16), tests=["program"]),
+        Leg("os-pipe", "c11", "^TestOSPipe$", engine="sched", checks=(1, 4), shards=(3, 6), tests=["os-pipe"], replay_attempts=2),
         Leg("return", "c11", "^TestReturn$", engine="sched", checks=(30, 1500), shards=(16, 32), tests=["return"], replay_attempts=5),
     ],
 }
